@@ -9,7 +9,6 @@ import (
 	"crypto/sha256"
 	"crypto/sha512"
 	"fmt"
-	"go/ast"
 	"math/big"
 	"strings"
 	"sync"
@@ -25,72 +24,6 @@ import (
 
 func main() {
 	hc.Main(hc.Spec{Prop: "C15", Facts: facts, Run: run})
-}
-
-func facts(f *hc.Facts) {
-	dir := "crypto/srp"
-	iters, keyLen, hashFn, m1Args, kArgs, uArgs := "", "", "", "", "", ""
-	if fd := f.FuncDecl(dir, "SRP.secondary"); fd != nil {
-		ast.Inspect(fd.Body, func(n ast.Node) bool {
-			if c, ok := n.(*ast.CallExpr); ok {
-				if se, ok := c.Fun.(*ast.SelectorExpr); ok && se.Sel.Name == "pbkdf2" && len(c.Args) == 3 {
-					iters = f.Src(c.Args[2])
-				}
-			}
-			return true
-		})
-	}
-	if fd := f.FuncDecl(dir, "SRP.pbkdf2"); fd != nil {
-		ast.Inspect(fd.Body, func(n ast.Node) bool {
-			if c, ok := n.(*ast.CallExpr); ok {
-				if se, ok := c.Fun.(*ast.SelectorExpr); ok && se.Sel.Name == "Key" && len(c.Args) == 5 {
-					keyLen = f.Src(c.Args[3])
-					hashFn = f.Src(c.Args[4])
-				}
-			}
-			return true
-		})
-	}
-	if fd := f.FuncDecl(dir, "SRP.Hash"); fd != nil {
-		for _, st := range fd.Body.List {
-			as, ok := st.(*ast.AssignStmt)
-			if !ok || len(as.Lhs) != 1 || len(as.Rhs) != 1 {
-				continue
-			}
-			id, ok := as.Lhs[0].(*ast.Ident)
-			if !ok {
-				continue
-			}
-			src := strings.Join(strings.Fields(f.Src(as.Rhs[0])), " ")
-			switch id.Name {
-			case "M1":
-				m1Args = src
-			case "k":
-				kArgs = src
-			case "u":
-				uArgs = src
-			}
-		}
-	}
-	num := func(name, v string) {
-		ok := v != ""
-		for _, ch := range v {
-			if ch < '0' || ch > '9' {
-				ok = false
-			}
-		}
-		if !ok {
-			f.Missing(name, "not found in crypto/srp")
-			return
-		}
-		f.Raw(fmt.Sprintf("def %s : Nat := %s -- crypto/srp", name, v))
-	}
-	num("pbkdf2Iters", iters)
-	num("pbkdf2KeyLen", keyLen)
-	f.Str("pbkdf2Hash", hashFn, "hash constructor given to pbkdf2.Key")
-	f.Str("m1Expr", m1Args, "M1 := … in SRP.Hash")
-	f.Str("kExpr", kArgs, "k := … in SRP.Hash")
-	f.Str("uExpr", uArgs, "u := … in SRP.Hash")
 }
 
 // ---------------------------------------------------------------------------------------------
